@@ -19,6 +19,9 @@ CHECKS = {
  "C06": dict(cat="exploration", tech="metamorphic property-based testing: canonical trace equality across input vectors, modes and guard values",
    text="For every operation cell and for generated programs, runs that differ only in secret input values, in ignore_errors mode, or in the value of enclosing guards must yield identical canonical traces (variable kinds, constraints mod p, result wire expressions). Exploration over generated programs and a complete sweep of small operand pools.",
    note=TB + "; plain constants are treated as part of the program.", ref="4 (C06)"),
+ "C02": dict(cat="exploration", tech="property-based testing with witness-space search as oracle: complete enumeration of satisfying assignments in small prime fields",
+   text="For every value-returning operator x operand-kind combination x complete small operand pools, and for generated 2-5 operation compositions, the recorded circuit is searched for ANY satisfying assignment (operands pinned, all auxiliary witnesses free) whose result differs from the honest one. In small prime fields the enumeration is complete for the circuit instance (a per-instance proof against the adversarial prover); real-field instances use a heuristic adversary. Counterexamples explained by the two listed findings (K1, K2) are excluded only if they have exactly the shape those findings allow and disappear when the variables they leave free are pinned.",
+   note=TB + "; transfer from small fields to the 254-bit fields is an argument (value-independent circuit shape, C06), not decided here.", ref="4 (C02), 5"),
 }
 PENDING = {}
 
